@@ -132,12 +132,14 @@ def _refiner(chk, modname, qual, kind):
         return {}
 
     specs = {0: {"invariant": inv_and_record, "on_backedge": on_backedge, "at_exit": at_exit}}
-    fn, proxy = symx.instrument(mod, modname, qual, specs)
-    real_conv = fn.__globals__["_bracket_converged"]
+    fn_cut, proxy = symx.instrument(mod, modname, qual, specs)
+    real_conv = vars(mod)["_bracket_converged"]
 
-    def body(ctx):
+    def body(ctx, unrolled=False):
         proxy.ctx = ctx
         H.clear()
+        fn = getattr(mod, qual) if unrolled else fn_cut          # the real function itself for the bounded stand-in
+        patched = {}
         g = ctx.ufun("g", ["real", "vec"], "real")
         D = ctx.ufun("dense", ["real"], "vec")
         t0, h = ctx.real("t0"), ctx.real("h")
@@ -148,6 +150,9 @@ def _refiner(chk, modname, qual, kind):
         # callee contract (C02): the dense interpolant reproduces the step's end points
         ctx.assume(z3.And(D.term(z3.RealVal(0)) == y0.t, D.term(z3.RealVal(1)) == y1.t), silent=True)
         ctx.assume(z3.And(zv(xtol) >= 0, zv(gtol) >= 0), silent=True)
+        if unrolled:
+            # bounded stand-in without a loop contract: |h| <= 4*xtol, so the bracket converges after at most two halvings
+            ctx.assume(z3.And(zv(xtol) > 0, zv(h) <= 4 * zv(xtol), -zv(h) <= 4 * zv(xtol)), silent=True)
         # precondition: the driver detected a crossing in this step
         ctx.assume(ev(g.term(zv(t0), y0.t), g.term(zv(t0) + zv(h), y1.t), zv(direction)), silent=True)
         t1 = X(zv(t0) + zv(h))
@@ -168,6 +173,9 @@ def _refiner(chk, modname, qual, kind):
             r = real_conv(a, b, hh, xt)
             ctx.ghost["bracket"] = (zv(a), zv(b), "converged" if r else "open", None)
             return r
+        NAMES = ("_bracket_converged", "_hermite_eval_dense", "_hermite_eval_dense_symplectic", "_rk45_build_Q_cache",
+                 "_rk45_eval_dense", "_dop853_build_dense_cache", "_dop853_eval_dense")
+        snap = {k: fn.__globals__[k] for k in NAMES if k in fn.__globals__}
         fn.__globals__["_bracket_converged"] = conv_wrapper
         if kind == "hermite":
             saved["_hermite_eval_dense"] = mod._hermite_eval_dense
@@ -210,6 +218,9 @@ def _refiner(chk, modname, qual, kind):
                 raise
             ctx.fail("refiner: raises nothing", repr(e))
             return
+        finally:
+            if unrolled:                 # the real function lives in the module itself: undo the callee stand-ins
+                fn.__globals__.update(snap)
         ctx.reached("refiner returns")
         yt = y_hit.t
         if not (z3.is_app(yt) and yt.decl().name() == "dense"):
@@ -253,6 +264,23 @@ def _refiner(chk, modname, qual, kind):
                 "B1 z3 (B2 cvc5 on unknown)", lambda nm=nm: explore().verdict(nm),
                 sample="g, dense interpolant uninterpreted; pre: crossing detected in the step")
     chk.cover(f"{qual}: return reachable", "refiner returns" in explore().covers)
+
+    # ---- bounded stand-in: the real loop unrolled, no loop contract (independent of the loop's local variables) ----------
+    stb = {}
+    exb = Explorer(fn_label, None, max_paths=4000)
+
+    def explore_b():
+        if not stb:
+            exb.run(lambda ctx: body(ctx, unrolled=True))
+            stb["d"] = 1
+        return exb
+    for nm in names[:3]:
+        chk.obl(f"[bounded: |h| <= 4*xtol (at most two halvings), real loop unrolled, no loop contract] {qual}: {nm}",
+                "K2 path VC (bounded unrolling)", [fn_label], "B1 z3 (B2 cvc5 on unknown)",
+                lambda nm=nm: explore_b().verdict(nm))
+    if not any(b.get("what") == "event refiners with the real bisection loop unrolled" for b in chk.bounded):
+        chk.bounded.append({"what": "event refiners with the real bisection loop unrolled", "bound": "|h| <= 4*xtol: at most "
+                            "two halvings; all other values symbolic", "counted_as_proved": False})
 
 
 # ----------------------------------------------------------------------------
